@@ -120,6 +120,10 @@ def _parse_operators_and_coefficient(
         coef = None
         operators_strs = parts
 
+    # A term without Pauli operators is printed as "<coefficient>*I" (see
+    # PauliTerm.__repr__), so a bare "I" (identity, no qubit index) is accepted.
+    operators_strs = [op_str for op_str in operators_strs if op_str != "I"]
+
     operators_dict = dict([_parse_operator(op_str) for op_str in operators_strs])
 
     if len(operators_dict) != len(operators_strs):
